@@ -774,9 +774,9 @@ class Linbasex(Adapter):
     name = 'linbasex'
     coq_module = 'CacheLinbasex'
     file_prefix = 'linbasex_basis_'
-    ORDERS = [[0, 2], [0, 2], [0, 1, 2], [1, 2], [12], [0], [0, 2, 4]]
+    ORDERS = [[0, 2], [0, 2], [0, 1, 2], [1, 2], [12], [0], [0, 2, 4], [2, 0], [0, 2, 1], [2, 1]]
     # angles in units of pi/400; a = 0 or a % 4 != 0 (see CacheLinbasex.v)
-    ANGLES = [[0, 202], [0, 202], [0, 201], [0, 102], [22, 2], [202], [0, 182, 362]]
+    ANGLES = [[0, 202], [0, 202], [0, 201], [0, 102], [22, 2], [202], [0, 182, 362], [202, 0], [2, 22]]
 
     @staticmethod
     def mod():
@@ -834,6 +834,7 @@ class Linbasex(Adapter):
     def gen_call(self, rng):
         cols, orders, angles, step, clip = self.gen_params(rng)
         return dict(n=cols, orders=list(orders), angles=list(angles), step=step, clip=clip,
+                    spell=int(rng.integers(3)),
                     bd=[None, '', 1, 1, 2, BADDIR][rng.integers(6)] if rng.random() < 0.8 else 1,
                     seed=int(rng.integers(1 << 30)))
 
@@ -856,8 +857,10 @@ class Linbasex(Adapter):
     def call(self, c, env=None):
         env = env or self.env
         IM = image(c['seed'], (c['n'], c['n']))
+        # how the two lists are spelled (list / tuple / array): never part of the key
+        sp = [list, tuple, np.array][c.get('spell', 0)]
         return quiet(self.mod().linbasex_transform_full, IM, basis_dir=env.arg(c['bd']),
-                     proj_angles=[a * np.pi / 400 for a in c['angles']], legendre_orders=list(c['orders']),
+                     proj_angles=sp([a * np.pi / 400 for a in c['angles']]), legendre_orders=sp(list(c['orders'])),
                      radial_step=c['step'], clip=c['clip'], verbose=False)
 
     def apply_other(self, op):
